@@ -10,11 +10,17 @@
 // interceptors) on an httptest recorder; the reply and the application-code
 // counters are compared with a reference function of the request (oracle.go).
 // A second enumeration compares JSON unary requests with their protobuf
-// encoding (equiv.go).
+// encoding (equiv.go). The header-set axis also carries two generated
+// families (outcome.go): directives that make the handler fail with error
+// values of every shape (own GRPCStatus() method, code OK, empty message, ...),
+// and every short sequence of valid/undecodable values under one or several
+// -bin keys.
 package main
 
 import (
+	"encoding/base64"
 	"fmt"
+	"net/http"
 	"os"
 	"runtime"
 	"runtime/debug"
@@ -25,6 +31,8 @@ import (
 	"time"
 
 	gt "github.com/fullstorydev/grpchan/grpchantesting"
+	"github.com/fullstorydev/grpchan/httpgrpc"
+	"google.golang.org/grpc/status"
 	"google.golang.org/protobuf/proto"
 
 	"verif/seq/common"
@@ -45,18 +53,19 @@ type sample struct {
 }
 
 type jobResult struct {
-	evals      int
-	classes    map[string]int
-	notes      map[string]int
-	nontrivial map[uint64]struct{}
-	viol       []violRec
-	samples    map[string]sample
+	evals          int
+	orderDependent int // requests with several distinct -bin keys (served orderRepeats times)
+	classes        map[string]int
+	notes          map[string]int
+	nontrivial     int // distinct non-trivial tuples of this job (jobs enumerate disjoint sets of tuples)
+	viol           []violRec
+	samples        map[string]sample
 }
 
 func pack(t tuple) uint64 {
 	var v uint64
 	for _, x := range t {
-		v = v<<8 | uint64(x)
+		v = v<<10 | uint64(x) // every axis has fewer than 1024 values (selfCheck)
 	}
 	return v
 }
@@ -127,8 +136,30 @@ func (w *worker) minimize(t tuple, clause string) (tuple, *result, *Case) {
 			t = t2
 		}
 	}
+	// a generated header set that is needed: walk to simpler sets of its family
+	// (one outcome parameter reset, one -bin value removed) while the clause persists
+	for changed := true; changed; {
+		changed = false
+		for _, name := range hdrs[t[4]].Simpler {
+			t2 := t
+			t2[4] = indexOfHdr(name)
+			if r2, _ := w.check(t2); findClause(r2, clause) != nil {
+				t, changed = t2, true
+				break
+			}
+		}
+	}
 	r, c := w.check(t)
 	return t, r, c
+}
+
+func indexOfHdr(name string) int {
+	for i := range hdrs {
+		if hdrs[i].Name == name {
+			return i
+		}
+	}
+	panic("no header set " + name)
 }
 
 func fingerprint(t tuple, f *finding) string {
@@ -157,7 +188,8 @@ func fingerprint(t tuple, f *finding) string {
 var progress int64
 
 func (w *worker) runJob(gen func(func(tuple))) *jobResult {
-	jr := &jobResult{classes: map[string]int{}, notes: map[string]int{}, nontrivial: map[uint64]struct{}{}, samples: map[string]sample{}}
+	jr := &jobResult{classes: map[string]int{}, notes: map[string]int{}, samples: map[string]sample{}}
+	nontrivial := map[uint64]struct{}{}
 	seenRaw := map[string]bool{}
 	gen(func(t tuple) {
 		atomic.AddInt64(&progress, 1)
@@ -168,10 +200,17 @@ func (w *worker) runJob(gen func(func(tuple))) *jobResult {
 			jr.notes[n]++
 		}
 		if r.Class != "unknown-path" {
-			jr.nontrivial[pack(t)] = struct{}{}
+			nontrivial[pack(t)] = struct{}{}
 		}
-		if _, ok := jr.samples[r.Class]; !ok {
-			jr.samples[r.Class] = sample{Case: c, Observed: r.Obs.short()}
+		if orderDependent(c.Hdr) {
+			jr.orderDependent++
+		}
+		sampleKey := r.Class
+		if orderDependent(c.Hdr) && (r.Class == "refused:400" || strings.HasPrefix(r.Class, "unary-ok")) {
+			sampleKey += fmt.Sprintf(" [several -bin keys: served %d times, one per insertion order of the keys]", orderRepeats)
+		}
+		if _, ok := jr.samples[sampleKey]; !ok {
+			jr.samples[sampleKey] = sample{Case: c, Observed: r.Obs.short()}
 		}
 		for i := range r.Findings {
 			f := &r.Findings[i]
@@ -189,6 +228,7 @@ func (w *worker) runJob(gen func(func(tuple))) *jobResult {
 			jr.viol = append(jr.viol, violRec{FP: fingerprint(mt, mf), What: mf.What + "   [request: " + describe(mc) + "]", Replay: mc})
 		}
 	})
+	jr.nontrivial = len(nontrivial)
 	return jr
 }
 
@@ -202,19 +242,56 @@ func describe(c *Case) string {
 
 // ---- enumerations ---------------------------------------------------------
 
-func fullJobs() []func(func(tuple)) {
+// The thorough tier's grammar is the union of three blocks (disjoint by construction):
+//
+//	A  the full product of all six axes over the hand-written header sets;
+//	B  the generated header sets (handler outcomes, several -bin values) crossed
+//	   with cfg x registered method x every Content-Type x every body, for POST
+//	   (the only requests that can get as far as the headers and the handler);
+//	C  the generated header sets in every other two-axis sweep (header set x
+//	   path, header set x HTTP method) around the plain valid request of each
+//	   method kind, for every cfg.
+func coveredAB(t tuple) bool {
+	return t[4] < nCoreHdrs || (t[1] < len(kinds) && t[2] == 0)
+}
+
+func chunkJobs(ts []tuple) []func(func(tuple)) {
+	var jobs []func(func(tuple))
+	const chunk = 2000
+	for i := 0; i < len(ts); i += chunk {
+		part := ts[i:min(i+chunk, len(ts))]
+		jobs = append(jobs, func(yield func(tuple)) {
+			for _, t := range part {
+				yield(t)
+			}
+		})
+	}
+	return jobs
+}
+
+func blockC() []tuple {
+	var out []tuple
+	for ci := range cfgs {
+		out = append(out, sweepTuples(ci, false, func(t tuple) bool { return !coveredAB(t) })...)
+	}
+	return out
+}
+
+func fullJobs() ([]func(func(tuple)), int) {
 	var jobs []func(func(tuple))
 	n := axisSizes()
+	total := 0
 	for ci := 0; ci < n[0]; ci++ {
 		for pi := 0; pi < n[1]; pi++ {
 			ci, pi := ci, pi
 			if !(tuple{ci, pi}).valid() {
 				continue
 			}
-			jobs = append(jobs, func(yield func(tuple)) {
+			total += n[2] * n[3] * nCoreHdrs * n[5]
+			jobs = append(jobs, func(yield func(tuple)) { // block A
 				for mi := 0; mi < n[2]; mi++ {
 					for ti := 0; ti < n[3]; ti++ {
-						for hi := 0; hi < n[4]; hi++ {
+						for hi := 0; hi < nCoreHdrs; hi++ {
 							for bi := 0; bi < n[5]; bi++ {
 								yield(tuple{ci, pi, mi, ti, hi, bi})
 							}
@@ -222,31 +299,47 @@ func fullJobs() []func(func(tuple)) {
 					}
 				}
 			})
+			if pi >= len(kinds) {
+				continue
+			}
+			total += n[3] * (n[4] - nCoreHdrs) * n[5]
+			jobs = append(jobs, func(yield func(tuple)) { // block B
+				for ti := 0; ti < n[3]; ti++ {
+					for hi := nCoreHdrs; hi < n[4]; hi++ {
+						for bi := 0; bi < n[5]; bi++ {
+							yield(tuple{ci, pi, 0, ti, hi, bi})
+						}
+					}
+				}
+			})
 		}
 	}
-	return jobs
+	c := blockC()
+	return append(jobs, chunkJobs(c)...), total + len(c)
 }
 
-// quickTuples: around the plain valid request of each method kind (cfg "srv"),
-// every single-axis sweep and every two-axis sweep. Every pair of values of
-// any two axes therefore occurs together in at least one request
-// (pairwise-complete), and every value of every axis is tried against an
-// otherwise valid request of each kind.
-func quickTuples() []tuple {
+// sweepTuples: around the plain valid request of each method kind under
+// configuration ci, every single-axis sweep and every two-axis sweep (the cfg
+// axis takes part when withCfg is set); keep filters the result.
+func sweepTuples(ci int, withCfg bool, keep func(tuple) bool) []tuple {
 	n := axisSizes()
 	seen := map[tuple]bool{}
 	var out []tuple
 	add := func(t tuple) {
-		if t.valid() && !seen[t] {
+		if t.valid() && !seen[t] && (keep == nil || keep(t)) {
 			seen[t] = true
 			out = append(out, t)
 		}
 	}
+	first := 1
+	if withCfg {
+		first = 0
+	}
 	for pi := 0; pi < len(kinds); pi++ {
-		base := tuple{0, pi, 0, 0, 0, 0}
+		base := tuple{ci, pi, 0, 0, 0, 0}
 		base[3], base[5] = baseOf(3, base), baseOf(5, base)
 		add(base)
-		for a := 0; a < 6; a++ {
+		for a := first; a < 6; a++ {
 			for b := a + 1; b < 6; b++ {
 				for x := 0; x < n[a]; x++ {
 					for y := 0; y < n[b]; y++ {
@@ -269,19 +362,16 @@ func quickTuples() []tuple {
 	return out
 }
 
+// quickTuples: around the plain valid request of each method kind (cfg "srv"),
+// every single-axis sweep and every two-axis sweep. Every pair of values of
+// any two axes therefore occurs together in at least one request
+// (pairwise-complete), and every value of every axis is tried against an
+// otherwise valid request of each kind.
+func quickTuples() []tuple { return sweepTuples(0, true, nil) }
+
 func quickJobs() ([]func(func(tuple)), int) {
 	ts := quickTuples()
-	var jobs []func(func(tuple))
-	const chunk = 2000
-	for i := 0; i < len(ts); i += chunk {
-		part := ts[i:min(i+chunk, len(ts))]
-		jobs = append(jobs, func(yield func(tuple)) {
-			for _, t := range part {
-				yield(t)
-			}
-		})
-	}
-	return jobs, len(ts)
+	return chunkJobs(ts), len(ts)
 }
 
 func runJobs(jobs []func(func(tuple))) []*jobResult {
@@ -382,12 +472,190 @@ func selfCheck() error {
 		want(hd("bad-bin") == no && hd("bad-bin-second-value") == no && hd("bad-bin+bad-timeout") == no, "undecodable header sets"),
 		want(hd("unpadded-bin") == either && hd("timeout-word") == either && hd("timeout-no-unit") == either && hd("timeout-unit-only") == either && hd("timeout-negative") == either && hd("timeout-bad-unit") == either, "open header sets"),
 	)
+	errs = append(errs, selfCheckGenerated()...)
 	for _, e := range errs {
 		if e != nil {
 			return e
 		}
 	}
 	return nil
+}
+
+// selfCheckGenerated: the generated header sets are what their names say.
+func selfCheckGenerated() []error {
+	var errs []error
+	bad := func(format string, a ...interface{}) { errs = append(errs, fmt.Errorf("self-check: "+format, a...)) }
+	for i, n := range axisSizes() {
+		if n >= 1024 {
+			bad("axis %d has %d values: pack() would collide", i, n)
+		}
+	}
+	names := map[string]bool{}
+	for _, h := range hdrs {
+		if names[h.Name] {
+			bad("header set %s occurs twice", h.Name)
+		}
+		names[h.Name] = true
+	}
+	nOutcome, nBin, nOrder := 0, 0, 0
+	for i, h := range hdrs {
+		if h.Ext != (i >= nCoreHdrs) {
+			bad("header set %s: generated sets must follow the hand-written ones", h.Name)
+		}
+		for _, sn := range h.Simpler {
+			if !names[sn] {
+				bad("header set %s: simpler set %s is not in the grammar", h.Name, sn)
+			}
+		}
+		spec := specOfHeaders(h.H)
+		switch {
+		case strings.HasPrefix(h.Name, "outcome:"):
+			nOutcome++
+			if spec == nil || "outcome:"+spec.String() != h.Name || headersDecode(h.H) != yes || orderDependent(h.H) {
+				bad("header set %s does not carry the directive it is named after", h.Name)
+				continue
+			}
+			// the oracle's reading of the directive against the error value the handler returns
+			err := spec.err()
+			if (err != nil) != spec.failed() {
+				bad("%s: handler error %v, oracle says failed=%v", h.Name, err, spec.failed())
+			}
+			code, exact := spec.expectation()
+			if err != nil {
+				gs, has := err.(interface{ GRPCStatus() *status.Status })
+				own := has && gs.GRPCStatus() != nil
+				if exact && !(own && int32(gs.GRPCStatus().Code()) == code && code != 0 && gs.GRPCStatus().Message() == spec.Msg && len(gs.GRPCStatus().Proto().Details) == spec.Details) {
+					bad("%s: oracle prescribes a status the error value does not carry", h.Name)
+				}
+				if code == 0 && own && gs.GRPCStatus().Code() != 0 {
+					bad("%s: the error value carries a non-OK status but the oracle prescribes none", h.Name)
+				}
+			}
+			if (spec.startErr() != nil) != (spec.At == "start" && spec.failed()) || (spec.endErr() != nil) != (spec.At == "end" && spec.failed()) {
+				bad("%s: start/end", h.Name)
+			}
+		case strings.HasPrefix(h.Name, "bin:"):
+			nBin++
+			want := yes
+			if strings.Contains(h.Name, "i") && strings.ContainsAny(strings.TrimPrefix(h.Name, "bin:"), "i") {
+				want = no
+			}
+			keys := strings.Count(h.Name, "=")
+			if spec != nil || headersDecode(h.H) != want || orderDependent(h.H) != (keys > 1) || len(distinctKeys(h.H)) != keys {
+				bad("header set %s is not what its name says", h.Name)
+			}
+			if orderDependent(h.H) {
+				nOrder++
+				// the orderRepeats orders are all the permutations of the keys, equally often
+				seen := map[string]int{}
+				for ord := 0; ord < orderRepeats; ord++ {
+					oh := orderedHeaders(h.H, ord)
+					if len(oh) != len(h.H) || headersDecode(oh) != want {
+						bad("header set %s order %d changes the set", h.Name, ord)
+					}
+					seen[strings.Join(distinctKeys(oh), ",")]++
+				}
+				fact := map[int]int{2: 2, 3: 6}[keys]
+				if len(seen) != fact {
+					bad("header set %s: %d key orders in %d runs, want %d", h.Name, len(seen), orderRepeats, fact)
+				}
+				for _, c := range seen {
+					if c != orderRepeats/fact {
+						bad("header set %s: key orders are not used equally often", h.Name)
+					}
+				}
+				// values under one key keep their order
+				for ord := 0; ord < orderRepeats; ord++ {
+					for _, k := range distinctKeys(h.H) {
+						var a, b []string
+						for _, kv := range h.H {
+							if strings.ToLower(kv.K) == k {
+								a = append(a, kv.V)
+							}
+						}
+						for _, kv := range orderedHeaders(h.H, ord) {
+							if strings.ToLower(kv.K) == k {
+								b = append(b, kv.V)
+							}
+						}
+						if strings.Join(a, " ") != strings.Join(b, " ") {
+							bad("header set %s order %d reorders the values of %s", h.Name, ord, k)
+						}
+					}
+				}
+			}
+		default:
+			if h.Ext || spec != nil {
+				bad("header set %s: unexpected", h.Name)
+			}
+		}
+	}
+	if nOutcome != 2*2*(3*2*2*2+5) || nBin != 14+36+8 || nOrder != 36+8 {
+		bad("%d outcome sets, %d -bin sets (%d with several keys)", nOutcome, nBin, nOrder)
+	}
+	if b64ok(base64.URLEncoding, binInvalid) || b64ok(base64.StdEncoding, binInvalid) || b64ok(base64.RawURLEncoding, binInvalid) || b64ok(base64.RawStdEncoding, binInvalid) || !b64ok(base64.URLEncoding, binValid) || !b64ok(base64.StdEncoding, binValid) {
+		bad("the two -bin values are not (in)valid base64 in every alphabet")
+	}
+	// calibration of the two oracles on synthetic replies (no library code involved):
+	// a failed handler reported OK, a reply without trailer frame, and a correct one
+	own := &outcomeSpec{At: "end", Type: "own", Code: 0, Msg: "", TrMD: false}
+	trailerFrame := func(tr *httpgrpc.HttpTrailer) []byte { b := mustPB(tr); return frame(-int32(len(b)), b) }
+	trOK := trailerFrame(&httpgrpc.HttpTrailer{Code: 0, Message: "boom"})
+	trInternal := trailerFrame(&httpgrpc.HttpTrailer{Code: 13})
+	data := framed(&gt.Message{Payload: msgOK.Payload, Count: msgOK.Count + 1}) // what BD answers to msgOK
+	for _, tc := range []struct {
+		name, clause string
+		body         []byte
+	}{
+		{"trailer says OK", "handler-failed-reported-ok", cat(data, trOK)},
+		{"zero-size last frame instead of a trailer", "stream-reply-malformed", cat(data, frame(0, nil))},
+		{"no trailer at all", "stream-reply-malformed", data},
+		{"two trailers", "stream-reply-malformed", cat(data, trInternal, trInternal)},
+		{"non-OK trailer", "", cat(data, trInternal)},
+	} {
+		res := &result{}
+		checkStream(res, &observation{Status: 200, Header: http.Header{}, Body: tc.body, Cnt: counters{handler: 1}}, "BD", nil, bodies[indexOfBody("frame1")].B, own)
+		got := ""
+		if len(res.Findings) > 0 {
+			got = res.Findings[0].Clause
+		}
+		if got != tc.clause || res.Class != "stream-outcome-error:BD" {
+			bad("synthetic reply %q judged %q (class %s), want %q", tc.name, got, res.Class, tc.clause)
+		}
+	}
+	for _, tc := range []struct {
+		name, clause string
+		status       int
+		hdr          string
+	}{
+		{"200 without status header", "handler-failed-reported-ok", 200, ""},
+		{"500 with status 0", "handler-failed-reported-ok", 500, "0:"},
+		{"500 with Internal", "", 500, "13:"},
+	} {
+		res := &result{}
+		h := http.Header{}
+		if tc.hdr != "" {
+			h.Set("X-GRPC-Status", tc.hdr)
+		}
+		checkUnary(res, &observation{Status: tc.status, Header: h, Cnt: counters{handler: 1}}, ctUnary, bodies[indexOfBody("pb")].B, own)
+		got := ""
+		if len(res.Findings) > 0 {
+			got = res.Findings[0].Clause
+		}
+		if got != tc.clause {
+			bad("synthetic unary reply %q judged %q, want %q", tc.name, got, tc.clause)
+		}
+	}
+	// a dispatched request with an undecodable -bin value among several is a violation whatever the rest
+	for _, n := range []string{"bin:A=iv", "bin:A=vi", "bin:A=v,B=i", "bin:A=v,B=v,C=i"} {
+		rq := &request{Method: "POST", Path: "/t.S/U", CT: ctUnary, CTPresent: true, Hdr: hdrs[indexOfHdr(n)].H, Body: bodies[indexOfBody("pb")].B}
+		r1 := judge(map[string]string{"/t.S/U": "U"}, rq, &observation{Status: 200, Header: http.Header{}, Cnt: counters{handler: 1}})
+		r2 := judge(map[string]string{"/t.S/U": "U"}, rq, &observation{Status: 400, Header: http.Header{}})
+		if findClause(r1, "invalid-request-dispatched") == nil || len(r2.Findings) != 0 {
+			bad("header set %s: dispatched => %d finding(s), refused with 400 => %d finding(s)", n, len(r1.Findings), len(r2.Findings))
+		}
+	}
+	return errs
 }
 
 func main() {
@@ -415,21 +683,10 @@ func main() {
 	}
 
 	start := time.Now()
-	var jobs []func(func(tuple))
-	grammarSize := 0
-	n := axisSizes()
-	for ci := 0; ci < n[0]; ci++ {
-		for pi := 0; pi < n[1]; pi++ {
-			if (tuple{ci, pi}).valid() {
-				grammarSize += n[2] * n[3] * n[4] * n[5]
-			}
-		}
-	}
+	jobs, grammarSize := fullJobs()
 	exhaustive := rep.Tier == "thorough"
 	enumerated := grammarSize
-	if exhaustive {
-		jobs = fullJobs()
-	} else {
+	if !exhaustive {
 		jobs, enumerated = quickJobs()
 	}
 	results := runJobs(jobs)
@@ -437,18 +694,17 @@ func main() {
 	evals := 0
 	classes := map[string]int{}
 	notes := map[string]int{}
-	nontrivial := map[uint64]struct{}{}
+	nontrivial, orderDep := 0, 0
 	samplesByClass := map[string]sample{}
 	for _, jr := range results {
 		evals += jr.evals
+		nontrivial += jr.nontrivial
+		orderDep += jr.orderDependent
 		for k, v := range jr.classes {
 			classes[k] += v
 		}
 		for k, v := range jr.notes {
 			notes[k] += v
-		}
-		for k := range jr.nontrivial {
-			nontrivial[k] = struct{}{}
 		}
 		for k, s := range jr.samples {
 			if _, ok := samplesByClass[k]; !ok {
@@ -482,22 +738,25 @@ func main() {
 		samples = append(samples, map[string]interface{}{"class": k, "request": describe(s.Case), "observed": s.Observed})
 	}
 	samples = append(samples, eq.samples...)
-	if len(samples) > 34 {
-		samples = samples[:34]
+	if len(samples) > 40 {
+		samples = samples[:40]
 	}
 	samples = append(samples, sc.samples...)
 
 	rule := "request grammar = cfg{srv, mux(HandleServices), srv+/api base+interceptors, mux+/api base+interceptors} x path{4 registered methods (one per kind), 14-15 unregistered/non-canonical} x method{POST,GET,HEAD,PUT,DELETE,OPTIONS,PATCH,post,CONNECT} x Content-Type{" + fmt.Sprint(len(cts)) + " strings} x header set{" + fmt.Sprint(len(hdrs)) + "} x body{" + fmt.Sprint(len(bodies)) + "}; " +
-		"each request is served by the real handler tree on a recorder and judged by a reference function of the literal request. "
+		"each request is served by the real handler tree on a recorder and judged by a reference function of the literal request. " +
+		fmt.Sprintf("Header sets: %d hand-written ones + %d generated ones of two families. ", nCoreHdrs, len(hdrs)-nCoreHdrs) +
+		fmt.Sprintf("(1) HANDLER OUTCOMES (%d sets): a header X-Outcome, plain metadata to the library, makes the handler of whatever kind is addressed finish with an error value of a given shape instead of the status.Err() the handlers otherwise fail with: at{start = before it reads the request, end = after it has read and answered everything, where it would return nil} x trailer metadata set by the handler{no,yes} x (type{status.Err(), value with its own GRPCStatus() method, the same wrapped with %%w} x code{OK,NotFound} x message{\"boom\",empty} x details{0,1} + {value whose GRPCStatus() is nil, errors.New(\"boom\"), errors.New(\"\"), context.DeadlineExceeded, wrapped context.Canceled}); the oracle: when the handler fails, the caller gets a non-OK status (unary) resp. the reply is the data frames the handler sent followed by exactly one trailer frame whose status is not OK (streams); code, message and details must be the status's own when the error is or has a non-OK status (only the code for a wrapped one). ", len(outcomeHdrs())) +
+		fmt.Sprintf("(2) SEVERAL -bin VALUES (%d sets) over {valid base64, not base64}: every sequence of length 1..3 under one -bin key (14), two -bin keys with every sequence of length 1..2 each (36), three -bin keys with one value each (8); the oracle: 400 and no application code as soon as one value is not base64. http.Header is a map and Go randomises map iteration, so a request with more than one distinct -bin key is served %d times (a fixed number), the header map being filled in another order of its keys each time (all permutations in turn), and the first run judged wrong is the one reported; such a case still counts once in evaluations (order_dependent_cases of them). Verdicts on sequences under one key do not depend on map order. ", len(binHdrs()), orderRepeats)
 	if exhaustive {
-		rule += "Thorough tier: the full product. "
+		rule += "Thorough tier, three disjoint blocks, each enumerated completely: A = the full product of all six axes over the hand-written header sets; B = generated header sets x cfg x registered method x every Content-Type x every body, for POST; C = generated header sets in the remaining two-axis sweeps (header set x path, header set x HTTP method) around the plain valid request of each method kind, for every cfg. grammar_size is the size of A+B+C. "
 	} else {
-		rule += fmt.Sprintf("Quick tier: NOT the full product (%d requests) but, around the plain valid request of each of the 4 method kinds, every single-axis sweep and every two-axis sweep (%d requests; pairwise-complete: every pair of values of any two axes occurs in some request). ", grammarSize, enumerated)
+		rule += fmt.Sprintf("Quick tier: NOT the thorough tier's grammar (%d requests) but, around the plain valid request of each of the 4 method kinds, every single-axis sweep and every two-axis sweep (%d requests; pairwise-complete: every pair of values of any two axes, generated header sets included, occurs in some request). ", grammarSize, enumerated)
 	}
 	rule += "A request is non-trivial when it addresses a registered method, i.e. reaches the gatekeeping code of handleMethod/handleStream (requests to unregistered paths only exercise the mux); distinct by (cfg,path,method,content type,header set,body). " +
 		"Plus the JSON==protobuf comparison: message{9} x JSON rendering{2} x JSON content type{3} x header set{3} x cfg{4}, each against the protobuf encoding of the same message (all enumerated in both tiers; counted in evaluations, and in distinct_nontrivial when both requests were dispatched). " +
 		"Plus SEVERAL REQUESTS ON ONE SERVER (sequences and overlaps): k = 1..3 requests of a pool, served by one fresh server in one fresh process (GOMAXPROCS(1), collector off) under a word over S_i (start request i, run it until its park-th ResponseWriter call WriteHeader/Write/Flush blocks on a gate, or to its end) and F_i (open the gate, run it to its end) with S_0<S_1<.. and S_i<F_i: 1/3/15 words for k=1/2/3, the first being the plain sequence; the pool is crossed with itself, so every order occurs. " +
-		"Pool = target kind{U,CS,SS,BD} x Content-Type{unary,stream,json,+charset variants,text/plain} with a body valid for that codec (every listed content type meets a kind that supports it and kinds that do not) + 18 requests differing on one other axis (sizes of the reply: same/longer/shorter, errors with details, undecodable bodies, GET, header sets, unknown method); overlapped pairs over 16 of them (JSON and protobuf unary calls of equal and different reply sizes, failing calls, a refused call, echoed metadata, one stream per kind), triples over 4 (3 JSON sizes + protobuf). Blocks enumerated completely: " + strings.Join(sc.blocks, "; ") + ". " +
+		"Pool = target kind{U,CS,SS,BD} x Content-Type{unary,stream,json,+charset variants,text/plain} with a body valid for that codec (every listed content type meets a kind that supports it and kinds that do not) + 20 requests differing on one other axis (sizes of the reply: same/longer/shorter, errors with details, undecodable bodies, GET, header sets including one handler-outcome directive and one sequence of -bin values, unknown method); overlapped pairs over 16 of them (JSON and protobuf unary calls of equal and different reply sizes, failing calls, a refused call, echoed metadata, one stream per kind), triples over 4 (3 JSON sizes + protobuf). Blocks enumerated completely: " + strings.Join(sc.blocks, "; ") + ". " +
 		"Every reply of every case is judged by the same reference function as an isolated request (a request judged wrong alone is reported under its isolated fingerprint; a finding of a case that a simpler, already reported case explains - fewer requests with the word projected onto them, the same requests one after the other, first park point, first configuration - is not reported again). Each overlapped case is run in two processes and the outputs must be byte-identical, otherwise the run is INCONCLUSIVE. " +
 		"Such a case counts in evaluations once; in distinct_nontrivial when it is a sequence of >= 2 requests that all address registered methods, or an overlapped word in which some request was measured parked on its gate while a step of another request ran (distinct by cfg, requests, park point, word)."
 	if !exhaustive {
@@ -507,27 +766,31 @@ func main() {
 	fmt.Printf("C11: %d requests (+%d JSON/protobuf pairs) in %.1fs; grammar size %d; classes: %v; notes: %v\n", evals, eq.evals, isolatedS, grammarSize, classes, notes)
 	fmt.Printf("C11: %d cases of several requests on one server (%d overlapped, each run twice; %d processes) in %.1fs; %v; %v\n", sc.cases, sc.overlappedCases, sc.childRuns, time.Since(start).Seconds()-isolatedS, sc.blocks, sc.classes)
 	os.Exit(rep.Finish("exploration", map[string]interface{}{
-		"evaluations":         evals + eq.evals + sc.cases,
-		"distinct_nontrivial": len(nontrivial) + eq.nontrivial + sc.nontrivial,
-		"sched_cases":         sc.cases,
-		"sched_processes":     sc.childRuns,
-		"sched_overlapped":    sc.overlappedCases,
-		"sched_nontrivial":    sc.nontrivial,
-		"sched_blocks":        sc.blocks,
-		"sched_shapes":        sc.classes,
-		"rule":                rule,
-		"samples":             samples,
-		"exhaustive":          exhaustive,
-		"grammar_size":        grammarSize,
-		"requests":            evals,
-		"json_pb_pairs":       eq.evals,
-		"classes":             classes,
-		"notes":               mergeNotes(notes, eq.notes),
+		"evaluations":           evals + eq.evals + sc.cases,
+		"distinct_nontrivial":   nontrivial + eq.nontrivial + sc.nontrivial,
+		"sched_cases":           sc.cases,
+		"sched_processes":       sc.childRuns,
+		"sched_overlapped":      sc.overlappedCases,
+		"sched_nontrivial":      sc.nontrivial,
+		"sched_blocks":          sc.blocks,
+		"sched_shapes":          sc.classes,
+		"rule":                  rule,
+		"samples":               samples,
+		"exhaustive":            exhaustive,
+		"grammar_size":          grammarSize,
+		"requests":              evals,
+		"order_dependent_cases": orderDep,
+		"order_repeats":         orderRepeats,
+		"json_pb_pairs":         eq.evals,
+		"classes":               classes,
+		"notes":                 mergeNotes(notes, eq.notes),
 	}, []string{
 		"net/http's connection handling is not exercised: requests are built literally and served on httptest.ResponseRecorder (no network)",
 		"overlapping requests: a slow peer is modelled by a ResponseWriter whose n-th call blocks before consuming anything; interleavings are those of two steps per request (up to the gate / from the gate to the end), i.e. a request is preempted only inside its ResponseWriter, not at arbitrary instructions (races inside the library between two running requests are not explored; there is no shared mutable state in the unchanged server for them to race on)",
 		"several requests on one server: each case starts from a fresh process, so the state a case can depend on is the one its own requests create; histories longer than 3 requests are only met by the isolated sweep, where one server per configuration and worker serves all requests in enumeration order",
-		"handlers are well-behaved (propagate receive/decode errors, echo only x-echo* request metadata into response headers and trailers)",
+		"handlers are well-behaved (propagate receive/decode errors, echo only x-echo* request metadata into response headers and trailers); they fail with an error value of another shape only when the X-Outcome request header asks for it, and then either before reading the request or after having answered it completely (not in the middle of a stream)",
+		"map iteration order cannot be controlled: for requests with several distinct -bin keys the verdict 'holds' means 'held in each of the 24 runs, one per insertion order of the keys'; a change whose effect depends on an iteration order that none of the 24 runs met would be missed on that request (the same sets are met in many requests, and every same-key sequence is deterministic)",
+		"outcome directives are crossed with every other axis pairwise (quick) resp. with cfg x kind x Content-Type x body (thorough), but not with the several-requests-on-one-server part beyond two pool requests, nor with each other or with other header sets (trailer metadata is a parameter of the directive instead)",
 		"Content-Type strings that name a supported type in a different spelling (case, parameters, malformed parameters), unpadded base64 in -bin headers and GRPC-Timeout values outside the wire grammar may be refused (415/400, no application code) or accepted: the statement does not settle them",
 		"error details of a unary JSON request are accepted in either the documented encoding (base64 of a binary Any) or the request's codec (base64 of a JSON Any); the latter is counted under notes",
 		"streaming handlers quote the payload of an error-requesting message in their status message and may send data frames before failing",
